@@ -112,6 +112,8 @@ def dataclasses_(P: Program) -> Dict[str, Dict[str, ast.expr]]:
                     pass
                 elif isinstance(st, ast.Pass):
                     pass
+                elif isinstance(st, ast.FunctionDef) and getattr(st, "_synthetic", False):
+                    pass      # the constructor model._dataclass_init wrote out
                 else:
                     ok = False
             if ok and fields:
